@@ -1,8 +1,138 @@
-/- Driver handler of C04: protocol line (already split into tokens, without the leading "c04") -> answer. -/
+/- Driver handler of C04: protocol line (already split into tokens) -> answer.
+   c04 f <sheet> <col> <row> <k> { <name> <m> { <alias> <worksheet> }*m }*k <tree in prefix form>
+     tree tokens:  r:<cps> range | n:<cps> number | t:<cps> text (raw, with quotes) | l:0/1 | e:<tag> | z
+                   u (neg) | p (pct) | b:<op> l r | f:<namecps>:<nargs> args…
+     answer:  N:<needed ; separated>|R:<reads ; separated, C=addr / R=addr>|W:<written 0/1>|T:<emitted tokens>
+              or `!raise` when the model's emitter fails
+   c04 g <n> <seed> { <needed list, comma separated node numbers or -> <hasPrec 0/1> <parts list> }*n
+     answer:  the edges of the built graph, sorted, `a>b` separated by `;`, `~` the leftover todo count, `~` cell_map
+-/
 import Pycel.Model.Proto
+import Pycel.Model.Needed
 namespace Pycel.Drv.C04
+open Pycel Pycel.Formula Pycel.Needed
+
+def txt (tok : String) : Option (List Char) :=
+  if tok.startsWith "s:" then decText? (tok.drop 2).toString else none
+
+def opOf : String → Option InOp
+  | "colon" => some .colon | "space" => some .space | "comma" => some .comma | "pow" => some .pow
+  | "mul" => some .mul | "div" => some .div | "add" => some .add | "sub" => some .sub | "concat" => some .concat
+  | "eq" => some .eq | "lt" => some .lt | "gt" => some .gt | "le" => some .le | "ge" => some .ge | "ne" => some .ne
+  | _ => none
+
+mutual
+partial def parseTree : List String → Option (Expr × List String)
+  | [] => none
+  | t :: ts =>
+    if t = "z" then some (.operand .empty, ts)
+    else if t = "u" then (parseTree ts).map fun (e, r) => (.neg e, r)
+    else if t = "p" then (parseTree ts).map fun (e, r) => (.pct e, r)
+    else if t.startsWith "r:" then (decText? (t.drop 2).toString).map fun s => (.operand (.range s), ts)
+    else if t.startsWith "n:" then (decText? (t.drop 2).toString).map fun s => (.operand (.number s), ts)
+    else if t.startsWith "t:" then (decText? (t.drop 2).toString).map fun s => (.operand (.text s), ts)
+    else if t = "l:1" then some (.operand (.logical true), ts)
+    else if t = "l:0" then some (.operand (.logical false), ts)
+    else if t.startsWith "e:" then (Err.ofTag? (t.drop 2).toString).map fun e => (.operand (.error e), ts)
+    else if t.startsWith "b:" then do
+      let op ← opOf (t.drop 2).toString
+      let (l, r1) ← parseTree ts
+      let (r, r2) ← parseTree r1
+      some (.bin op l r, r2)
+    else if t.startsWith "f:" then
+      match (t.drop 2).toString.splitOn ":" with
+      | [nm, k] => do
+        let name ← decText? nm
+        let n ← k.toNat?
+        let (args, rest) ← parseArgs n ts
+        some (.func name args, rest)
+      | _ => none
+    else none
+partial def parseArgs : Nat → List String → Option (List Expr × List String)
+  | 0, ts => some ([], ts)
+  | n + 1, ts => do
+    let (e, r) ← parseTree ts
+    let (es, r2) ← parseArgs n r
+    some (e :: es, r2)
+end
+
+partial def parsePairs : Nat → List String → Option (List (List Char × List Char) × List String)
+  | 0, ts => some ([], ts)
+  | n + 1, a :: w :: ts => do
+    let a ← txt a
+    let w ← txt w
+    let (ps, r) ← parsePairs n ts
+    some ((a, w) :: ps, r)
+  | _, _ => none
+
+partial def parseNames : Nat → List String → Option (List (List Char × List (List Char × List Char)) × List String)
+  | 0, ts => some ([], ts)
+  | n + 1, nm :: m :: ts => do
+    let nm ← txt nm
+    let m ← m.toNat?
+    let (ps, r) ← parsePairs m ts
+    let (ns, r2) ← parseNames n r
+    some ((nm, ps) :: ns, r2)
+  | _, _ => none
+
+def showTok : PyTok → String
+  | .name s => String.ofList s
+  | .num s => String.ofList s
+  | .str b => "\"" ++ String.ofList b ++ "\""
+  | .op o => String.ofList (opText o)
+  | .lpar => "(" | .rpar => ")" | .comma => ","
+
+def showRead : Read → String
+  | .cell s => "C=" ++ String.ofList s
+  | .range s => "R=" ++ String.ofList s
+  | .computed a => "R=" ++ String.ofList a.address
+
+/-- the environment does not matter for the trace of a formula whose library never raises -/
+def unitSem : Needed.Sem Unit :=
+  { cell := fun _ => (), range := fun _ => (), errv := fun _ => (), lit := fun _ => (), neg := fun _ => some (),
+    pct := fun _ => some (), bin := fun _ _ _ => some (), tuple := fun _ => (), call := fun _ _ => some (),
+    refFn := fun _ _ => some () }
+
+def natList (s : String) : List Nat :=
+  if s = "-" then [] else (s.splitOn ",").filterMap String.toNat?
+
+partial def parseBook : Nat → List String → List (List Nat × Bool × List Nat)
+  | 0, _ => []
+  | n + 1, a :: h :: p :: ts => (natList a, h = "1", natList p) :: parseBook n ts
+  | _, _ => []
 
 def handle : List String → String
+  | "c04" :: "f" :: sheet :: col :: row :: k :: rest =>
+    match txt sheet, col.toNat?, row.toNat?, k.toNat? with
+    | some sheet, some col, some row, some k =>
+      match parseNames k rest with
+      | some (names, rest2) =>
+        match parseTree rest2 with
+        | some (e, []) =>
+          let cx : RefCtx := ⟨sheet, col, row, names⟩
+          if !emitOk cx e then "!raise" else
+          let nd := (needed cx e).map fun o => match o with | some s => String.ofList s | none => "!bad"
+          let rd := (reads cx unitSem e).map showRead
+          let w := if written cx e then "1" else "0"
+          "N:" ++ ";".intercalate nd ++ "|R:" ++ ";".intercalate rd ++ "|W:" ++ w ++ "|T:" ++
+            " ".intercalate ((Needed.emit cx e).map showTok)
+        | _ => "!bad-tree"
+      | none => "!bad-names"
+    | _, _, _, _ => "!bad-arg"
+  | "c04" :: "g" :: n :: seed :: rest =>
+    match n.toNat?, seed.toNat? with
+    | some n, some seed =>
+      let rows := parseBook n rest
+      let bk : Book Nat :=
+        { needed := fun i => (rows.getD i ([], false, [])).1
+          hasPrec := fun i => (rows.getD i ([], false, [])).2.1
+          parts := fun i => (rows.getD i ([], false, [])).2.2 }
+      let s := genGraph bk (n + 1) (4 * n + 4) seed
+      let es := (s.edges.map fun (a, b) => (a, b)).eraseDups
+      let sorted := es.mergeSort (fun x y => x.1 < y.1 || (x.1 == y.1 && x.2 ≤ y.2))
+      ";".intercalate (sorted.map fun (a, b) => s!"{a}>{b}") ++ s!"~{s.todos.length}~" ++
+        ",".intercalate (s.cellMap.map toString)
+    | _, _ => "!bad-arg"
   | _ => "!bad-op"
 
 end Pycel.Drv.C04
